@@ -97,6 +97,7 @@ func init() {
 		name := in.concreteStr(a[0])
 		v := in.newInput(name, 256)
 		in.assume(in.st.Cmp(OpULt, v, in.st.ConstBig(256, feltP)))
+		in.st.canon[v.id] = true
 		ag := &Agg{e: make([]Value, 32)}
 		for i := 0; i < 32; i++ {
 			ag.e[i] = in.st.Extract(v, 255-8*i, 248-8*i)
@@ -196,6 +197,16 @@ func init() {
 		return nil
 	})
 	reg(vxPkg+"Distinct", nop)
+	reg(vxPkg+"Concrete", func(in *Interp, c *Frame, fn *ssa.Function, a []Value) Value {
+		t := a[0].(*Term)
+		if t.IsConst() {
+			return t
+		}
+		if in.mergeDepth > 0 {
+			in.unsupported("vx.Concrete inside a merged callee")
+		}
+		return in.st.Const(64, in.concretize(t, "vx.Concrete"))
+	})
 	reg(vxPkg+"B2U", func(in *Interp, c *Frame, fn *ssa.Function, a []Value) Value {
 		return in.st.Ite(a[0].(*Term), in.st.Const(64, 1), in.st.Const(64, 0))
 	})
